@@ -86,6 +86,9 @@ func (r *chunkReader) Read(p []byte) (int, error) {
 	if r.failAt >= 0 && r.failAt < end && r.failAt > r.pos {
 		end = r.failAt
 	}
+	if r.zeroAt >= 0 && !r.zeroDone && r.zeroAt < end && r.zeroAt > r.pos {
+		end = r.zeroAt // the empty Read happens AT this offset: the data before it is delivered first
+	}
 	if end-r.pos > len(p) {
 		end = r.pos + len(p)
 	}
